@@ -1,5 +1,5 @@
 #!/bin/sh
-# E4 differential self-test: every instruction model of contracts/simd_models.rs against the real instruction of THIS host.
+# E4 differential self-test: every instruction model of contracts/simd_models.rs (alpha kernels + K9 convolution kernels) against the real instruction of THIS host.
 #   edge values per lane + N pseudo-random vectors (fixed seed) per model; one line per model; exit 1 on any difference.
 #   Host without SSE4.1 (or AVX2): the models of that ISA are reported "unvalidated" and the exit status stays 0.
 # usage: tools/simd_model_selftest.sh [N]        (default N = 200000 random vectors per model)
@@ -258,6 +258,71 @@ unsafe fn run_avx2(t: &mut Tally, rng: &mut Rng, n: usize) {
     bin_ps!(t, rng, n, 8, __m256, "mm256_div_ps", _mm256_div_ps, mm256_div_ps);
 }
 
+// ------------------------------------------------------------ K9 (convolution kernels): unary / const-generic forms
+// $real and $model are expressions (closures or paths) from one input vector of IN bytes to OUT bytes; CMP = number of leading bytes compared
+macro_rules! un_bytes { ($t:expr, $rng:expr, $n:expr, $IN:literal, $TI:ty, $OUT:literal, $CMP:expr, $name:expr, $real:expr, $model:expr) => {{
+    let va = int_vectors::<$IN>($rng, $n, 0);
+    let (mut bad, mut first) = (0usize, None);
+    for a in va.iter() {
+        let x: $TI = unsafe { transmute(*a) };
+        let r: [u8; $OUT] = unsafe { transmute($real(x)) };
+        let m: [u8; $OUT] = unsafe { transmute($model(x)) };
+        if r[..$CMP] != m[..$CMP] { bad += 1; if first.is_none() { first = Some(format!("a={:02x?} real={:02x?} model={:02x?}", a, r, m)); } }
+    }
+    $t.line($name, va.len(), bad, first);
+}}; }
+macro_rules! srai128_all { ($t:expr, $rng:expr, $n:expr, $($imm:literal)*) => {{ $(
+    un_bytes!($t, $rng, $n / 4, 16, __m128i, 16, 16, concat!("mm_srai_epi32::<", stringify!($imm), ">"), _mm_srai_epi32::<$imm>, mm_srai_epi32::<$imm>);
+)* }}; }
+macro_rules! srai256_all { ($t:expr, $rng:expr, $n:expr, $($imm:literal)*) => {{ $(
+    un_bytes!($t, $rng, $n / 4, 32, __m256i, 32, 32, concat!("mm256_srai_epi32::<", stringify!($imm), ">"), _mm256_srai_epi32::<$imm>, mm256_srai_epi32::<$imm>);
+)* }}; }
+macro_rules! shufd_all { ($t:expr, $rng:expr, $n:expr, $($imm:literal)*) => {{ $(
+    un_bytes!($t, $rng, $n / 4, 16, __m128i, 16, 16, concat!("mm_shuffle_epi32::<", stringify!($imm), ">"), _mm_shuffle_epi32::<$imm>, mm_shuffle_epi32::<$imm>);
+)* }}; }
+// (ymm, xmm) -> ymm
+macro_rules! ins128 { ($t:expr, $rng:expr, $n:expr, $name:expr, $real:expr, $model:expr) => {{
+    let (va, vb) = (int_vectors::<32>($rng, $n, 0), int_vectors::<16>($rng, $n, 3));
+    let (mut bad, mut first) = (0usize, None);
+    for (a, b) in va.iter().zip(vb.iter()) {
+        let (x, y): (__m256i, __m128i) = unsafe { (transmute(*a), transmute(*b)) };
+        let r: [u8; 32] = unsafe { transmute($real(x, y)) };
+        let m: [u8; 32] = unsafe { transmute($model(x, y)) };
+        if r != m { bad += 1; if first.is_none() { first = Some(format!("a={:02x?} b={:02x?} real={:02x?} model={:02x?}", a, b, r, m)); } }
+    }
+    $t.line($name, va.len(), bad, first);
+}}; }
+
+#[target_feature(enable = "sse2,ssse3,sse4.1")]
+unsafe fn run_sse_k9(t: &mut Tally, rng: &mut Rng, n: usize) {
+    bin_i128!(t, rng, n, _mm_madd_epi16, mm_madd_epi16);
+    bin_i128!(t, rng, n, _mm_packs_epi32, mm_packs_epi32);
+    // every shift count the kernels can instantiate (constify_imm8!: 1..=31) plus the saturating counts
+    srai128_all!(t, rng, n, 0 1 2 3 4 5 6 7 8 9 10 11 12 13 14 15 16 17 18 19 20 21 22 23 24 25 26 27 28 29 30 31 32 33 64 128 255);
+    un_bytes!(t, rng, n, 16, __m128i, 16, 16, "mm_cvtepu8_epi32", _mm_cvtepu8_epi32, mm_cvtepu8_epi32);
+    un_bytes!(t, rng, n, 16, __m128i, 16, 16, "mm_cvtepu8_epi16", _mm_cvtepu8_epi16, mm_cvtepu8_epi16);
+    un_bytes!(t, rng, n, 16, __m128i, 8, 8, "mm_extract_epi64::<0>", |x| _mm_extract_epi64::<0>(x), |x| mm_extract_epi64::<0>(x));
+    un_bytes!(t, rng, n, 16, __m128i, 8, 8, "mm_extract_epi64::<1>", |x| _mm_extract_epi64::<1>(x), |x| mm_extract_epi64::<1>(x));
+    shufd_all!(t, rng, n, 0 1 27 57 78 85 147 177 228 238 255);
+}
+
+#[target_feature(enable = "avx,avx2")]
+unsafe fn run_avx2_k9(t: &mut Tally, rng: &mut Rng, n: usize) {
+    bin_i256!(t, rng, n, _mm256_madd_epi16, mm256_madd_epi16);
+    bin_i256!(t, rng, n, _mm256_packs_epi32, mm256_packs_epi32);
+    srai256_all!(t, rng, n, 0 1 2 3 4 5 6 7 8 9 10 11 12 13 14 15 16 17 18 19 20 21 22 23 24 25 26 27 28 29 30 31 32 33 64 128 255);
+    un_bytes!(t, rng, n, 16, __m128i, 32, 32, "mm256_cvtepu8_epi16", _mm256_cvtepu8_epi16, mm256_cvtepu8_epi16);
+    ins128!(t, rng, n, "mm256_inserti128_si256::<0>", |x, y| _mm256_inserti128_si256::<0>(x, y), |x, y| mm256_inserti128_si256::<0>(x, y));
+    ins128!(t, rng, n, "mm256_inserti128_si256::<1>", |x, y| _mm256_inserti128_si256::<1>(x, y), |x, y| mm256_inserti128_si256::<1>(x, y));
+    ins128!(t, rng, n, "mm256_insertf128_si256::<0>", |x, y| _mm256_insertf128_si256::<0>(x, y), |x, y| mm256_insertf128_si256::<0>(x, y));
+    ins128!(t, rng, n, "mm256_insertf128_si256::<1>", |x, y| _mm256_insertf128_si256::<1>(x, y), |x, y| mm256_insertf128_si256::<1>(x, y));
+    un_bytes!(t, rng, n, 32, __m256i, 16, 16, "mm256_extracti128_si256::<0>", |x| _mm256_extracti128_si256::<0>(x), |x| mm256_extracti128_si256::<0>(x));
+    un_bytes!(t, rng, n, 32, __m256i, 16, 16, "mm256_extracti128_si256::<1>", |x| _mm256_extracti128_si256::<1>(x), |x| mm256_extracti128_si256::<1>(x));
+    // the upper half of the cast result is undefined by the ISA: only the low 16 bytes are compared
+    un_bytes!(t, rng, n, 16, __m128i, 32, 16, "mm256_castsi128_si256 (low half)", _mm256_castsi128_si256, mm256_castsi128_si256);
+    un_bytes!(t, rng, n, 32, __m256i, 16, 16, "mm256_castsi256_si128", _mm256_castsi256_si128, mm256_castsi256_si128);
+}
+
 fn main() {
     let n: usize = std::env::args().nth(1).and_then(|s| s.parse().ok()).unwrap_or(200000);
     let mut t = Tally { failed: false };
@@ -266,11 +331,13 @@ fn main() {
     let avx = is_x86_feature_detected!("avx2");
     if sse {
         unsafe { run_sse(&mut t, &mut rng, n) };
+        unsafe { run_sse_k9(&mut t, &mut rng, n) };
     } else {
         println!("E4 self-test: host CPU lacks SSE4.1/SSSE3 - 128-bit models unvalidated");
     }
     if avx {
         unsafe { run_avx2(&mut t, &mut rng, n) };
+        unsafe { run_avx2_k9(&mut t, &mut rng, n) };
     } else {
         println!("E4 self-test: host CPU lacks AVX2 - 256-bit models unvalidated");
     }
